@@ -46,6 +46,8 @@ def corpus_strings():
         out.append((b'"\\%o"' % n, el))
         out.append((b'"\\%03o"' % n, el))
         out.append((b'"x\\%03o\\%03o"' % (n & 0o777, (n + 1) & 0o777), el))
+    for t in (b'"\\x41 z"', b'"\\x41\xc3\xa9z"', b'"\\x41-"', b'"\\x41.;"', b'"a\\x3bb\xce\xbb;"', b'"\\x;"', b'"\\x41"z"'):
+        out.append((t, r6))
     for t in (b'"\\300\\u00e9"', b'"\\300\xc3\xa9"', b'"\\101"', b'"\\101\xce\xbb"', b'"\\001\\002\\003"', b'"\\x41\\x42"', b'"\\^a\\^Z\\^@\\^1"',
               b'"\\e\\s\\d\\ \\q"', b'""', b'"\\377a"', b'"a\\377"', b'"\\400\\377"', b'"\\u00ff\\377"', b'"\\N{U+41}\\101"', b'"\\N{LATIN}"', b'"\\N"',
               b'"\xff"', b'"a\xce"', b'"\xce\xbb"', b'"\xf0\x9f\x98\x80"', b'"\xed\xa0\x80"', b'"\xc0\x80"'):
